@@ -27,6 +27,15 @@ def _point(spec, model):
     kw = spec['unit_kw']
     fp = {'Pa': 1e5, 'kPa': 100.0}.get(kw.get('pressure_unit'), 1.0)
     fl = {'mol': 1e-3}.get(kw.get('loading_unit'), 1.0)
+    h = spec.get('history')
+    if h:
+        iso.spreading_pressure_at((p[0] + p[-1]) / 2)
+        if 'convert_loading' in h:
+            iso.convert_loading(unit_to='mol')
+            fl = 1e-3
+        else:
+            iso.convert_pressure(unit_to='kPa')
+            fp = 100.0
     P_ = [x * fp for x in p]
     L_ = [x * fl for x in l]
     w = spec['where']
